@@ -10,6 +10,7 @@ import tempfile
 import numpy as np
 
 from gridrv import core, instrument
+from gridrv.monitors import roundtrip
 from gridrv.oracles import cubic_ref_c13 as ref
 
 PROP = "C13"
@@ -24,6 +25,11 @@ REQUIRED_HOOKS = [
     "interpolate",
     "generate_cube",
     "from_cube",
+    "clone:copy",
+    "clone:deepcopy",
+    "clone:pickle",
+    "clone:pickle2",
+    "clone-through-postconditions",
 ]
 REQUIRED_FAMILIES = [
     "uniform-layout",
@@ -50,7 +56,13 @@ RULE = (
     "cube write/read in bohr and in two spellings of the Angstrom convention; up to 64 derivative orders nu<=3 per axis at "
     "interior points of grids with >=7 increasing nodes per axis). A case is non-trivial when at least one oracle was evaluated; "
     "cases are distinct by their generator parameters (family, kind, dimension, k) and draw their numbers from (VERIF_SEED, case id); "
-    "the weight-scheme family is a deterministic cross product (5 schemes x 2-D/3-D x 4 axis kinds x structured shape list)."
+    "the weight-scheme family is a deterministic cross product (5 schemes x 2-D/3-D x 4 axis kinds x structured shape list). "
+    "Clones: in every family the grid object (built directly, by from_molecule, by from_cube, with integer-dtype origin/axes, 2-D and 3-D, "
+    "UniformGrid and Tensor1DGrids) is also passed through copy.copy / copy.deepcopy / pickle (default and protocol 2; one kind per case in "
+    "quick, two in thorough, drawn by the case generator): the clone must equal the original in every public property, leave the original "
+    "unchanged, and - for a seed-rotated half of the cases - goes through the same post-conditions as a fresh grid (layout against the "
+    "construction arguments, weights, all-index round trip, separable integral, axis nodes, enclosure margins, closest_point queries, "
+    "interpolation, cube writing)."
 )
 ASSUMPTIONS = [
     "box volume V = |det(diag(M) axes)| (M_i steps of length |a_i| per axis, as the library documents it)",
@@ -186,6 +198,107 @@ def _make_axes(rng, dim, kind):
             return a
 
 
+# ------------------------------------------------------------------------------------------------ post-conditions
+# (module level so that the workload can hand CLONES of grid objects - which never pass through __init__ - to the same oracles)
+def _decide_uniform(ctx, g, origin, axes, shape, weight, tag=""):
+    """Layout and weight post-condition of a UniformGrid that is claimed to be UniformGrid(origin, axes, shape, weight)."""
+    dim = origin.size
+    subj_w = f"UniformGrid:{weight}:{dim}D{tag}"
+    n = int(np.prod(shape))
+    subj = f"UniformGrid:{dim}D:{_axes_class(axes)}{tag}"
+    try:
+        good_shape = tuple(int(v) for v in g.shape) == tuple(int(v) for v in shape) and g.points.shape == (n, dim) and g.weights.shape == (n,) and g.size == n
+        seen = {"points": list(np.shape(g.points)), "shape": shape}
+    except Exception as exc:  # noqa: BLE001  (a clone that lost part of its state)
+        if not core.is_library_exception(exc) and not isinstance(exc, AttributeError):
+            raise
+        good_shape, seen = False, {"error": f"{type(exc).__name__}: {exc}"[:200]}
+    ctx.check("layout-lexicographic", subj + ":shape", good_shape, sig="wrong-array-shapes", detail=seen)
+    if not good_shape:
+        return
+    want = ref.uniform_points(origin, axes, shape)
+    scale = float(np.abs(origin).max() + np.sum((shape - 1) * np.abs(axes).max(axis=1))) or 1.0
+    err = np.abs(g.points - want).max(axis=1)
+    worst = int(np.argmax(err))
+    ctx.check("layout-lexicographic", subj, float(err[worst]) / scale, TOL_LAYOUT, sig="point(i,j,k)!=origin+i*a1+j*a2+k*a3", detail={"flat_index": worst, "coords": ref.unravel_index(worst, shape), "got": g.points[worst], "want": want[worst], "shape": shape})
+    # weights
+    vol = abs(float(np.linalg.det(np.diag(shape.astype(float)) @ axes)))
+    w = g.weights
+    if not np.all(np.isfinite(w)):
+        ctx.fail("weight-scheme", subj_w, "non-finite-weights", detail={"shape": shape})
+        return
+    ratio = float(np.sum(w)) / vol
+    bound = float(np.sum(1.0 / shape))
+    if abs(ratio) < 0.01:
+        sig = "sum~0"
+    else:
+        sig = f"sum/V~{ratio:.1f}"
+    ctx.check("weight-scheme", subj_w, abs(ratio - 1.0) / bound, 1.0 + 1e-12, sig=sig, detail={"sum_over_V": ratio, "bound": bound, "shape": shape, "wmin": float(w.min()), "wmax": float(w.max())})
+    if bound < 1.0:
+        ctx.count("weight-scheme:non-vacuous-bound")
+
+
+def _decide_tensor(ctx, g, ones, tag=""):
+    """Layout and weight post-condition of a Tensor1DGrids that is claimed to be the tensor product of ``ones``."""
+    dim = len(ones)
+    subj = f"Tensor1DGrids:{dim}D{tag}"
+    shape = tuple(int(o.size) for o in ones)
+    n = int(np.prod(shape))
+    try:
+        good_shape = tuple(int(v) for v in g.shape) == shape and g.points.shape == (n, dim) and g.weights.shape == (n,)
+        seen = {"points": list(np.shape(g.points)), "shape": shape}
+    except Exception as exc:  # noqa: BLE001
+        if not core.is_library_exception(exc) and not isinstance(exc, AttributeError):
+            raise
+        good_shape, seen = False, {"error": f"{type(exc).__name__}: {exc}"[:200]}
+    ctx.check("layout-lexicographic", subj + ":shape", good_shape, sig="wrong-array-shapes", detail=seen)
+    if not good_shape:
+        return
+    want = ref.tensor_points([o.points for o in ones])
+    err = np.abs(g.points - want).max(axis=1)
+    worst = int(np.argmax(err))
+    ctx.check("layout-lexicographic", subj, float(err[worst]), 0.0, sig="point(i,j,k)!=(x_i,y_j,z_k)", detail={"flat_index": worst, "coords": ref.unravel_index(worst, shape), "got": g.points[worst], "want": want[worst], "shape": shape})
+    ww = ref.tensor_weights([o.weights for o in ones])
+    rel = np.abs(g.weights - ww) / (np.abs(ww) + 1e-300)
+    worst = int(np.argmax(rel))
+    ctx.check("tensor-weights-product", subj, float(rel[worst]), TOL_W, sig="w(i,j,k)!=wx_i*wy_j*wz_k", detail={"flat_index": worst, "got": float(g.weights[worst]), "want": float(ww[worst]), "shape": shape})
+
+
+def _margin_verdict(ctx, g, nums, coords, spacing, ext, subj):
+    """(ok, signature, detail) of the enclosure clause for grid ``g`` built around the molecule; also checks the axes."""
+    lo, hi, steps, _ = ref.molecule_margins(g.origin, g.axes, g.shape, coords)
+    gram = np.asarray(g.axes) @ np.asarray(g.axes).T
+    ctx.check("from-molecule-margin", subj + ":orthogonal-axes-of-length-spacing", float(np.abs(gram - spacing**2 * np.eye(3)).max()) / spacing**2, 1e-9, sig="axes-not-spacing*orthonormal", detail={"axes": g.axes})
+    need = ext - spacing
+    worst = float(min(lo.min(), hi.min()))
+    detail = {"margin_first_plane": lo, "margin_last_plane": hi, "required": need, "worst": worst, "spacing": spacing, "extension": ext, "shape": g.shape, "natom": int(nums.size)}
+    if worst >= need - 1e-9 * (1.0 + abs(ext)):
+        return True, None, detail
+    how = ref.classify_enclosure_failure(g.origin, g.axes, g.shape, coords, nums, ext)
+    head = "nucleus-outside" if worst < -1e-9 else "margin<ext-spacing"
+    return False, f"{head};{how}", detail
+
+
+def _clone(ctx, subject, g, n=None):
+    """Clones of ``g`` (1 kind in quick, 2 in thorough, drawn by the case generator), each compared with the original in every
+    public property.  Returns [(tag, clone)] of the clones that exist."""
+    n = n or (1 if ctx.tier == "quick" else 2)
+    out = []
+    for kind in roundtrip.pick(ctx.rng, n):
+        c = roundtrip.check_clone(ctx, subject, g, kind)
+        if c is not None:
+            out.append((f":clone({kind})", c))
+    return out
+
+
+def _through(ctx, p):
+    """Seed-rotated half of the cases: the clone also goes through the post-conditions of a fresh grid."""
+    go = (int(p.get("k", 0)) + int(ctx.seed)) % 2 == 0
+    if go:
+        ctx.hit("clone-through-postconditions")
+    return go
+
+
 # ------------------------------------------------------------------------------------------------ monitors
 def setup(ctx):
     ref.self_test()
@@ -212,32 +325,7 @@ def setup(ctx):
             else:
                 ctx.count("UniformGrid.__init__:undocumented-weight-rejected")
             return
-        n = int(np.prod(shape))
-        subj = f"UniformGrid:{dim}D:{_axes_class(axes)}"
-        good_shape = tuple(int(v) for v in self.shape) == tuple(int(v) for v in shape) and self.points.shape == (n, dim) and self.weights.shape == (n,) and self.size == n
-        ctx.check("layout-lexicographic", subj + ":shape", good_shape, sig="wrong-array-shapes", detail={"points": list(self.points.shape), "shape": shape})
-        if not good_shape:
-            return
-        want = ref.uniform_points(origin, axes, shape)
-        scale = float(np.abs(origin).max() + np.sum((shape - 1) * np.abs(axes).max(axis=1))) or 1.0
-        err = np.abs(self.points - want).max(axis=1)
-        worst = int(np.argmax(err))
-        ctx.check("layout-lexicographic", subj, float(err[worst]) / scale, TOL_LAYOUT, sig="point(i,j,k)!=origin+i*a1+j*a2+k*a3", detail={"flat_index": worst, "coords": ref.unravel_index(worst, shape), "got": self.points[worst], "want": want[worst], "shape": shape})
-        # weights
-        vol = abs(float(np.linalg.det(np.diag(shape.astype(float)) @ axes)))
-        w = self.weights
-        if not np.all(np.isfinite(w)):
-            ctx.fail("weight-scheme", subj_w, "non-finite-weights", detail={"shape": shape})
-            return
-        ratio = float(np.sum(w)) / vol
-        bound = float(np.sum(1.0 / shape))
-        if abs(ratio) < 0.01:
-            sig = "sum~0"
-        else:
-            sig = f"sum/V~{ratio:.1f}"
-        ctx.check("weight-scheme", subj_w, abs(ratio - 1.0) / bound, 1.0 + 1e-12, sig=sig, detail={"sum_over_V": ratio, "bound": bound, "shape": shape, "wmin": float(w.min()), "wmax": float(w.max())})
-        if bound < 1.0:
-            ctx.count("weight-scheme:non-vacuous-bound")
+        _decide_uniform(ctx, self, origin, axes, shape, weight)
 
     instrument.wrap_method(ctx, UniformGrid, "__init__", post_uniform, hook="UniformGrid.__init__")
 
@@ -258,20 +346,7 @@ def setup(ctx):
         if exc is not None:
             ctx.fail("layout-lexicographic", subj, f"raised:{type(exc).__name__}", detail={"error": str(exc)[:200]})
             return
-        shape = tuple(int(g.size) for g in ones)
-        n = int(np.prod(shape))
-        good_shape = tuple(int(v) for v in self.shape) == shape and self.points.shape == (n, dim) and self.weights.shape == (n,)
-        ctx.check("layout-lexicographic", subj + ":shape", good_shape, sig="wrong-array-shapes", detail={"points": list(self.points.shape), "shape": shape})
-        if not good_shape:
-            return
-        want = ref.tensor_points([g.points for g in ones])
-        err = np.abs(self.points - want).max(axis=1)
-        worst = int(np.argmax(err))
-        ctx.check("layout-lexicographic", subj, float(err[worst]), 0.0, sig="point(i,j,k)!=(x_i,y_j,z_k)", detail={"flat_index": worst, "coords": ref.unravel_index(worst, shape), "got": self.points[worst], "want": want[worst], "shape": shape})
-        ww = ref.tensor_weights([g.weights for g in ones])
-        rel = np.abs(self.weights - ww) / (np.abs(ww) + 1e-300)
-        worst = int(np.argmax(rel))
-        ctx.check("tensor-weights-product", subj, float(rel[worst]), TOL_W, sig="w(i,j,k)!=wx_i*wy_j*wz_k", detail={"flat_index": worst, "got": float(self.weights[worst]), "want": float(ww[worst]), "shape": shape})
+        _decide_tensor(ctx, self, ones)
 
     instrument.wrap_method(ctx, Tensor1DGrids, "__init__", post_tensor, hook="Tensor1DGrids.__init__")
 
@@ -396,17 +471,12 @@ def setup(ctx):
                 ctx.fail("from-molecule-margin", subj, f"raised:{type(exc).__name__}", detail={"error": str(exc)[:200]})
             return
         g = res
-        lo, hi, steps, _ = ref.molecule_margins(g.origin, g.axes, g.shape, coords)
-        gram = np.asarray(g.axes) @ np.asarray(g.axes).T
-        ctx.check("from-molecule-margin", subj + ":orthogonal-axes-of-length-spacing", float(np.abs(gram - spacing**2 * np.eye(3)).max()) / spacing**2, 1e-9, sig="axes-not-spacing*orthonormal", detail={"axes": g.axes})
-        need = ext - spacing
-        worst = float(min(lo.min(), hi.min()))
-        if worst >= need - 1e-9 * (1.0 + abs(ext)):
+        ok, sig, detail = _margin_verdict(ctx, g, nums, coords, spacing, ext, subj)
+        _SEEN["last-from-molecule-verdict"] = (ok, sig)
+        if ok:
             ctx.check("from-molecule-margin", subj, True)
-            return
-        how = ref.classify_enclosure_failure(g.origin, g.axes, g.shape, coords, nums, ext)
-        head = "nucleus-outside" if worst < -1e-9 else "margin<ext-spacing"
-        ctx.fail("from-molecule-margin", subj, f"{head};{how}", measure=worst, tol=need, detail={"margin_first_plane": lo, "margin_last_plane": hi, "required": need, "spacing": spacing, "extension": ext, "shape": g.shape, "natom": int(nums.size)})
+        else:
+            ctx.fail("from-molecule-margin", subj, sig, measure=detail["worst"], tol=detail["required"], detail=detail)
 
     instrument.wrap_method(ctx, UniformGrid, "from_molecule", post_frommol, hook="UniformGrid.from_molecule")
 
@@ -422,7 +492,7 @@ def setup(ctx):
             return
         nu = (int(nx), int(ny), int(nz))
         kind = "log" if use_log else method
-        subj = f"{type(self).__name__}.interpolate:{kind}:nu={nu[0]}{nu[1]}{nu[2]}"
+        subj = f"{type(self).__name__}.interpolate:{kind}:nu={nu[0]}{nu[1]}{nu[2]}" + tr.get("stag", "")
         clause = {"cubic": "interp-cubic-exact", "log": "interp-log-exact", "linear": "interp-linear-exact"}[kind]
         if exc is not None:
             ctx.fail(clause, subj + tr.get("tag", ""), f"raised:{type(exc).__name__}", detail={"error": str(exc)[:200], "shape": self.shape})
@@ -469,12 +539,12 @@ def _as_tuple(c):
         return None
 
 
-def _roundtrip_all(ctx, g):
+def _roundtrip_all(ctx, g, tag=""):
     """Every flat index -> coordinates -> flat index and every coordinate -> flat -> coordinate (monitors decide the values)."""
     shape = tuple(int(v) for v in g.shape)
     dim = len(shape)
     n = int(np.prod(shape))
-    subj = f"{type(g).__name__}:{dim}D"
+    subj = f"{type(g).__name__}:{dim}D{tag}"
     bad_a = bad_b = bad_p = 0
     first = None
     with ctx.guard("index-maps-inverse", subj):
@@ -529,8 +599,19 @@ def _uniform_layout(ctx, p):
     ctx.case_note("shape", shape)
     if g is None:
         return
-    _roundtrip_all(ctx, g)
-    subj = f"UniformGrid:{dim}D:{_axes_class(axes)}"
+    _exercise_uniform(ctx, g, origin, axes, shape, "")
+    for tag, c in _clone(ctx, f"UniformGrid:{dim}D", g):
+        if _through(ctx, p):
+            with ctx.guard("clone-equals-original", f"UniformGrid:{dim}D{tag}", sig_prefix="raised-using-clone"):
+                _decide_uniform(ctx, c, origin, axes, shape, weight, tag)
+                _exercise_uniform(ctx, c, origin, axes, shape, tag)
+
+
+def _exercise_uniform(ctx, g, origin, axes, shape, tag):
+    rng = ctx.rng
+    dim = len(shape)
+    _roundtrip_all(ctx, g, tag)
+    subj = f"UniformGrid:{dim}D:{_axes_class(axes)}{tag}"
     # points through the index map: ties the layout to coordinates_to_index
     with ctx.guard("layout-lexicographic", subj):
         scale = float(np.abs(origin).max() + np.sum((shape - 1) * np.abs(axes).max(axis=1))) or 1.0
@@ -608,8 +689,19 @@ def _tensor_layout(ctx, p):
     tg = _lib_call(ctx, lambda: Tensor1DGrids(*ones))
     if tg is None:
         return
-    _roundtrip_all(ctx, tg)
-    subj = f"Tensor1DGrids:{dim}D"
+    _exercise_tensor(ctx, tg, ones, "")
+    for tag, c in _clone(ctx, f"Tensor1DGrids:{dim}D", tg):
+        if _through(ctx, p):
+            with ctx.guard("clone-equals-original", f"Tensor1DGrids:{dim}D{tag}", sig_prefix="raised-using-clone"):
+                _decide_tensor(ctx, c, ones, tag)
+                _exercise_tensor(ctx, c, ones, tag)
+
+
+def _exercise_tensor(ctx, tg, ones, tag):
+    rng = ctx.rng
+    dim = len(ones)
+    _roundtrip_all(ctx, tg, tag)
+    subj = f"Tensor1DGrids:{dim}D{tag}"
     with ctx.guard("separable-integral", subj):
         fs = _sep_functions(rng)
         rng.shuffle(fs)
@@ -644,11 +736,17 @@ def _weight_schemes(ctx, p):
         shapes = [tuple(_random_shape(rng, dim, 2, 26, cap=20000)) for _ in range(4)]
     else:
         shapes = _STRUCTURED_SHAPES[dim]
-    for shape in shapes:
+    pick = int(rng.integers(len(shapes)))
+    for i, shape in enumerate(shapes):
         axes = _make_axes(rng, dim, p["axes"])
         origin = rng.normal(size=dim)
+        shp = np.array(shape, dtype=int)
         # decided by the monitor on UniformGrid.__init__ (constructs + |sum(w)/V - 1| <= sum 1/M_i)
-        _lib_call(ctx, lambda: UniformGrid(origin, axes, np.array(shape, dtype=int), weight=scheme))
+        g = _lib_call(ctx, lambda: UniformGrid(origin, axes, shp, weight=scheme))
+        if g is not None and i == pick and scheme in WORKING:
+            for tag, c in _clone(ctx, f"UniformGrid:{scheme}:{dim}D", g):
+                with ctx.guard("clone-equals-original", f"UniformGrid:{scheme}:{dim}D{tag}", sig_prefix="raised-using-clone"):
+                    _decide_uniform(ctx, c, origin, axes, shp, scheme, tag)
 
 
 # ---------------------------------------------------------------- molecules
@@ -700,7 +798,21 @@ def _from_molecule(ctx, p):
     kw = {"spacing": spacing, "extension": ext, "rotate": p["rotate"]}
     if rng.random() < 0.3:
         kw["weight"] = str(rng.choice(WORKING))
-    _lib_call(ctx, lambda: UniformGrid.from_molecule(nums, coords, **kw))  # decided by the attached monitor
+    _SEEN.pop("last-from-molecule-verdict", None)
+    g = _lib_call(ctx, lambda: UniformGrid.from_molecule(nums, coords, **kw))  # decided by the attached monitor
+    verdict = _SEEN.get("last-from-molecule-verdict")
+    if g is None or verdict is None:
+        return
+    o0, a0, s0 = np.array(g.origin, dtype=float), np.array(g.axes, dtype=float), np.array([int(v) for v in g.shape])
+    subj = f"UniformGrid.from_molecule:rotate={bool(p['rotate'])}"
+    for tag, c in _clone(ctx, subj, g):
+        if _through(ctx, p):
+            with ctx.guard("clone-equals-original", subj + tag, sig_prefix="raised-using-clone"):
+                _decide_uniform(ctx, c, o0, a0, s0, kw.get("weight", "Trapezoid"), tag)
+                # same enclosure post-condition; a known enclosure defect of the original is the same defect in its clone,
+                # so what is decided for the clone is that it encloses the molecule exactly as (well or badly as) the original
+                ok, sig, detail = _margin_verdict(ctx, c, nums, coords, spacing, ext, subj + tag)
+                ctx.check("from-molecule-margin", subj + tag, (ok, sig) == verdict, sig="clone-encloses-differently:" + str(sig), detail={"original": verdict, "clone": [ok, sig], "worst": detail["worst"]})
 
 
 # ---------------------------------------------------------------- closest point
@@ -738,7 +850,14 @@ def _closest_point(ctx, p):
     if g is None:
         return
     subj = f"UniformGrid.closest_point:{dim}D"
+    targets = [g]
+    for tag, c in _clone(ctx, f"UniformGrid:{dim}D:form{form}", g):
+        if _through(ctx, p):
+            with ctx.guard("clone-equals-original", f"UniformGrid:{dim}D{tag}", sig_prefix="raised-using-clone"):
+                _decide_uniform(ctx, c, origin_arg, axes_arg, shape, "Trapezoid", tag)
+            targets.append(c)
     for i in range(40):
+        g = targets[i % len(targets)]  # queries alternate between the original and its clones (same monitor decides)
         t = rng.uniform(0, 1, dim) * (shape - 1)
         if i % 8 == 5:  # exactly on a node
             t = np.round(t)
@@ -749,8 +868,9 @@ def _closest_point(ctx, p):
         for which in ("closest", "origin"):
             with ctx.guard("closest-point-nearest", subj):
                 g.closest_point(pt, which)  # decided by the attached monitor
-    with ctx.guard("closest-point-nearest", subj):
-        g.closest_point(origin + 0.3 * steps)  # default mode
+    for g in targets:
+        with ctx.guard("closest-point-nearest", subj):
+            g.closest_point(origin + 0.3 * steps)  # default mode
 
 
 # ---------------------------------------------------------------- cube files
@@ -761,7 +881,8 @@ def _cube_roundtrip(ctx, p):
     shape = _random_shape(rng, 3, 2, 8)
     axes = _make_axes(rng, 3, p["axes"])
     origin = rng.normal(size=3) * rng.choice([1.0, 10.0])
-    g = _lib_call(ctx, lambda: UniformGrid(origin, axes, shape, weight=str(rng.choice(WORKING))))
+    _weight_of_case = str(rng.choice(WORKING))
+    g = _lib_call(ctx, lambda: UniformGrid(origin, axes, shape, weight=_weight_of_case))
     if g is None:
         return
     natom = int(rng.integers(1, 6))
@@ -782,8 +903,15 @@ def _cube_roundtrip(ctx, p):
     tmp = tempfile.mkdtemp(prefix="gridrv-c13-")
     try:
         f0 = os.path.join(tmp, "a.cube")
+        writer = g
+        for tag, c in _clone(ctx, "UniformGrid:3D:cube-writer", g):
+            if _through(ctx, p):
+                with ctx.guard("clone-equals-original", "UniformGrid:3D" + tag, sig_prefix="raised-using-clone"):
+                    _decide_uniform(ctx, c, origin, axes, shape, _weight_of_case, tag)
+                writer = c  # the file is written by the clone: everything below is decided for it
+                ctx.count("generate_cube:called-on-a-clone")
         with ctx.guard("cube-roundtrip-grid", "generate_cube"):
-            g.generate_cube(f0, data, atcoords, atnums, pseudo_numbers=pseudo)
+            writer.generate_cube(f0, data, atcoords, atnums, pseudo_numbers=pseudo)
             ctx.hit("generate_cube")
         if not os.path.exists(f0):
             return
@@ -798,6 +926,11 @@ def _cube_roundtrip(ctx, p):
                 g2, cube = UniformGrid.from_cube(path, return_data=True)
                 g3 = UniformGrid.from_cube(path)
                 ctx.hit("from_cube")
+                if conv == "bohr":  # the grid object that from_cube built, cloned
+                    o2, a2 = np.array(g2.origin, dtype=float), np.array(g2.axes, dtype=float)
+                    for tag, c in _clone(ctx, "UniformGrid:3D:from_cube", g2, 1):
+                        if _through(ctx, p):
+                            _decide_uniform(ctx, c, o2, a2, np.array([int(v) for v in shape]), "Trapezoid", ":from_cube" + tag)
                 same = tuple(int(v) for v in g2.shape) == tuple(int(v) for v in shape) == tuple(int(v) for v in g3.shape)
                 ctx.check("cube-roundtrip-grid", f"{conv}:shape", same, sig="shape-differs", detail={"got": g2.shape, "want": shape})
                 ctx.check("cube-roundtrip-grid", f"{conv}:origin", float(np.abs(g2.origin - origin).max()), tol, sig="origin-beyond-printed-precision", detail={"got": g2.origin, "want": origin})
@@ -906,6 +1039,15 @@ def _interp_cubic(ctx, p, negative=False):
             g.interpolate(q, values2, nu_x=0, nu_y=0, nu_z=0, method="cubic")
             g.interpolate(q, values2, nu_x=1, nu_y=0, nu_z=2, method="cubic")
             ctx.count("interpolate:same-grid-object-new-data")
+    for tag, cg in _clone(ctx, f"{type(g).__name__}:3D:interp-cubic", g):
+        if _through(ctx, p):
+            c3 = rng.normal(size=(4, 4, 4))
+            values3 = ref.poly3(c3, g.points)
+            _register(values3, c=c3, h=h, fmax=float(np.abs(values3).max()), stag=tag)
+            with ctx.guard("interp-cubic-exact", subj + tag, sig_prefix="raised-using-clone"):
+                cg.interpolate(q, values3, nu_x=0, nu_y=0, nu_z=0, method="cubic")
+                cg.interpolate(q, values3, False, 1, 2, 0)
+                cg.interpolate(q[:1], values3, nu_x=0, nu_y=1, nu_z=3)
     _TRUTH.clear()
 
 
@@ -938,6 +1080,12 @@ def _interp_log(ctx, p):
         _register(values2, c=c2, h=h, fmax=float(values2.max()), pmax=float(np.abs(ref.poly3(c2, g.points)).max()), tag=":same-grid-new-data")
         g.interpolate(q, values2, use_log=True)
         ctx.count("interpolate:same-grid-object-new-data")
+    for tag, cg in _clone(ctx, f"{type(g).__name__}:3D:interp-log", g):
+        if _through(ctx, p):
+            _register(values2, c=c2, h=h, fmax=float(values2.max()), pmax=float(np.abs(ref.poly3(c2, g.points)).max()), stag=tag)
+            with ctx.guard("interp-log-exact", subj + tag, sig_prefix="raised-using-clone"):
+                cg.interpolate(q, values2, use_log=True)
+                cg.interpolate(q, values2, use_log=True, nu_y=2)
     _TRUTH.clear()
 
 
@@ -960,6 +1108,10 @@ def _interp_linear(ctx, p):
             _register(values2, c=c2, h=h, fmax=float(np.abs(values2).max()) or 1.0, tag=":same-grid-new-data")
             g.interpolate(q, values2, method="linear")
             ctx.count("interpolate:same-grid-object-new-data")
+        for tag, cg in _clone(ctx, f"{type(g).__name__}:3D:interp-linear", g):
+            if _through(ctx, p):
+                _register(values, c=c, h=h, fmax=float(np.abs(values).max()) or 1.0, stag=tag)
+                cg.interpolate(q, values, method="linear")
         # ... and after its points were REASSIGNED (rigid translation through the public setter): the axis nodes and the
         # interpolant must follow the current points
         shift = rng.normal(size=3) * 2.0
